@@ -175,6 +175,17 @@ DIRECTED: Dict[str, Dict[str, str]] = {
     'aliases-spelling-full-names': {
         'pb/__init__.py': 'TOP = 1\n', 'pb/core.py': 'def fb():\n    pass\nclass Gamma:\n    pass\n', 'pa/__init__.py': '',
         'pa/m2.py': 'import pb.core\nimport pb\nX = pb.core.fb\nP = pb\nK = pb.core.Gamma\nM = pb.core\nclass C:\n    Y = pb.core.fb\n    Q = pb.core\n    class D(pb.core.Gamma):\n        Z = pb.core.Gamma\n'},
+    # names bound in a try body whose except clause (never run) binds them otherwise, at module and class level
+    'try-except-fallback-imports': {
+        'alpha/__init__.py': '', 'alpha/fast.py': 'class Quick:\n    pass\n', 'alpha/slow.py': 'class Steady:\n    pass\n',
+        'compat.py': 'try:\n    from alpha.fast import Quick as Engine\nexcept ImportError:\n    from alpha.slow import Steady as Engine\ntry:\n    import alpha.fast as impl\nexcept ImportError:\n    import alpha.slow as impl\nelse:\n    pass\n'
+                     'class Holder:\n    try:\n        from alpha.fast import Quick as Chosen\n    except (ImportError, AttributeError):\n        from alpha.slow import Steady as Chosen\n    finally:\n        pass\nclass Motor(Engine):\n    pass\n',
+        },
+    # a package without __all__ imports names from its own private submodule, other modules import them straight from the submodule
+    'package-imports-from-private-submodule': {
+        'delta/__init__.py': 'from ._core import Widget, make_widget\n', 'delta/_core.py': 'class Widget:\n    pass\ndef make_widget():\n    pass\n',
+        'delta/app.py': 'from delta._core import Widget, make_widget\nfrom ._core import Widget as W2\nimport delta._core as core\nclass Panel(Widget):\n    from delta._core import Widget as Kind\n',
+        'gamma/__init__.py': 'from ._base import Base\nfrom . import _base\n', 'gamma/_base.py': 'class Base:\n    pass\n', 'gamma/tools.py': 'from gamma._base import Base\nclass T(Base):\n    pass\n'},
     # a class binds a name through a package that merely re-imports it (pydoctor may not follow that: "not at all" is allowed), while the
     # module and the enclosing class bind the same name to other objects (which Python never consults for the class)
     'class-binding-shadowed-by-enclosing-scopes': {
